@@ -1501,8 +1501,9 @@ def construct(interp, cls, args, kwargs, node=None):
     init = interp._static_attr(cls, '__init__')
     if init is _MISSING or from_real(init) is None:
         return NotImplemented
+    from .interp import BoundMethod
     obj = SObj(cls, {}, label=cls.__name__)
-    interp.call_function(from_real(init), [obj] + list(args), kwargs, self_obj=obj)
+    interp.call(BoundMethod(obj, from_real(init)), list(args), kwargs, node)
     return obj
 
 
@@ -1717,6 +1718,10 @@ def sym_isinstance(interp, v, cls):   # noqa: F811
         if isinstance(cls, tuple):
             return any(sym_isinstance(interp, v, c) for c in cls)
         return cls in (np.ndarray, object)
+    if type(v).__name__ == 'OpaqueMutable':
+        if isinstance(cls, tuple):
+            return any(sym_isinstance(interp, v, c) for c in cls)
+        return cls is object
     return _orig_sym_isinstance(interp, v, cls)
 
 
@@ -1728,3 +1733,77 @@ def _isinstance_model(interp, args, kwargs, node):
 
 
 _MODELS[isinstance] = _isinstance_model
+
+
+# ---------------------------------------------------------------------------------------------
+# obj.__dict__ as a mapping (items / update / keys / get) and deep copies of symbolic objects (C11)
+# ---------------------------------------------------------------------------------------------
+class OpaqueMutable(Sym):
+    """A mutable value of unknown type stored in an attribute (e.g. a user attribute): only its ownership is tracked."""
+    mutable = True
+
+    def __init__(self, token):
+        self.token = token
+
+
+_elem_tokens = itertools.count(1)
+
+
+def _dictproxy_attr(interp, dp, name, node=None):
+    from .interp import SymMethod
+    if name in ('items', 'update', 'keys', 'values', 'get'):
+        return SymMethod(dp, name)
+    raise OutOfSubset(f'__dict__.{name}')
+
+
+_orig_deep = deep_copy_value
+
+
+def deep_copy_value(interp, x):      # noqa: F811
+    from .interp import BoundMethod, _MISSING
+    from .extract import from_real
+    if isinstance(x, SArr) and x.dtype == 'obj':
+        r = SArr(x.length, x.arr, 'obj', prov='fresh')
+        r.elem_owner = next(_elem_tokens)             # deepcopy copies the elements too
+        return r
+    if isinstance(x, OpaqueMutable):
+        return OpaqueMutable(next(_elem_tokens))
+    if isinstance(x, SObj):
+        dc = interp._static_attr(x.cls, '__deepcopy__')
+        if dc is not _MISSING and from_real(dc) is not None:
+            return interp.call(BoundMethod(x, from_real(dc)), [{}], {}, None)
+        return SObj(x.cls, {k: deep_copy_value(interp, v) for k, v in x.fields.items()}, label=x.label + "'")
+    return _orig_deep(interp, x)
+
+
+_cm2 = call_method
+
+
+def call_method(interp, recv, name, args, kwargs, node=None):   # noqa: F811
+    from .interp import DictProxy
+    if isinstance(recv, DictProxy):
+        f = recv.obj.fields
+        if name == 'items':
+            return list(f.items())
+        if name == 'keys':
+            return list(f.keys())
+        if name == 'values':
+            return list(f.values())
+        if name == 'get':
+            return f.get(args[0], args[1] if len(args) > 1 else None)
+        if name == 'update':
+            other = args[0]
+            if isinstance(other, DictProxy):
+                other = other.obj.fields
+            f.update(other)
+            f.update(kwargs)
+            return None
+    if isinstance(recv, SArr) and recv.dtype == 'obj' and name == 'copy':
+        r = SArr(recv.length, recv.arr, 'obj', prov='fresh')
+        r.elem_owner = builtins.getattr(recv, 'elem_owner', 0)      # ndarray.copy() of an object array is shallow: elements are shared
+        return r
+    return _cm2(interp, recv, name, args, kwargs, node)
+
+
+_MODELS[_copy.deepcopy] = lambda interp, args, kwargs, node: (interp.ctx.use(A('copy.deepcopy', 'copy.deepcopy(x) returns a value equal to x that shares no mutable object with x')), deep_copy_value(interp, args[0]))[1]
+_MODELS[_copy.copy] = _MODELS[_copy.deepcopy]
